@@ -159,7 +159,7 @@ type subSpec struct {
 	MemberFee  int      `json:"memberfee,omitempty"` // index (>=1) of a member given a non-zero fee
 	Struct     string   `json:"struct,omitempty"`    // next count header
 	HdrEmpty   bool     `json:"hdrempty,omitempty"`  // grind until the group header hash decodes as an empty Transactions
-	Wrap       string   `json:"wrap,omitempty"`      // sig fee eth
+	Wrap       string   `json:"wrap,omitempty"`      // sig fee eth sigbytes nosig
 	WrapSender int      `json:"wrapsender,omitempty"`
 	WrapNonce  int64    `json:"wrapnonce,omitempty"`
 	BadCount   int32    `json:"badcount,omitempty"`
@@ -203,6 +203,7 @@ type facts struct {
 	Eth     bool
 	Nonce   int64
 	ExecOK  bool
+	SigID   int // identity of the Signature message (type, public key, signature bytes); 0 = none/empty
 }
 
 type built struct {
@@ -228,6 +229,7 @@ type run struct {
 	onCh   map[string]bool
 	exBad  map[string]bool
 	idOf   map[string]int
+	sigOf  map[string]int
 	hashes [][]byte
 	subs   []*built
 }
@@ -239,6 +241,20 @@ func (ru *run) id(h []byte) int {
 	ru.hashes = append(ru.hashes, h)
 	ru.idOf[string(h)] = len(ru.hashes)
 	return len(ru.hashes)
+}
+
+// sigID numbers the distinct Signature messages of a history the way mempool's isGroupHead compares
+// them (nil-safe getters: an absent Signature equals an empty one).
+func (ru *run) sigID(sg *types.Signature) int {
+	if sg.GetTy() == 0 && len(sg.GetPubkey()) == 0 && len(sg.GetSignature()) == 0 {
+		return 0
+	}
+	k := fmt.Sprintf("%d|%x|%x", sg.GetTy(), sg.GetPubkey(), sg.GetSignature())
+	if v, ok := ru.sigOf[k]; ok {
+		return v
+	}
+	ru.sigOf[k] = len(ru.sigOf) + 1
+	return ru.sigOf[k]
 }
 
 func (ru *run) expire(t txSpec) int64 {
@@ -326,7 +342,7 @@ func owed(tx *types.Transaction, rate int64) int64 {
 func (ru *run) factsOf(tx *types.Transaction, t txSpec) facts {
 	f := facts{ID: ru.id(tx.Hash()), Sender: t.Sender, HasSig: true, SigOK: t.SigMode == "", ToValid: t.To != "bad",
 		OnChain: t.OnChain, Expire: tx.Expire, Fee: tx.Fee, Size: int64(types.Size(tx)), ChainOK: !t.ChainBad,
-		Nonce: tx.Nonce, ExecOK: !t.ExecBad}
+		Nonce: tx.Nonce, ExecOK: !t.ExecBad, SigID: ru.sigID(tx.Signature)}
 	switch t.SigMode {
 	case "nil":
 		f.HasSig, f.Sender = false, noSigID
@@ -513,7 +529,7 @@ func (ru *run) build(s subSpec) *built {
 	of := b.members[0]
 	of.HdrEmp = false
 	switch s.Wrap {
-	case "sig": // another account's public key on the wrapper; never verified by anything
+	case "sig": // another account's public key on the wrapper (refused by mempool isGroupHead since the fix of finding 2)
 		outer.Signature = &types.Signature{Ty: sigTy[s.WrapSender], Pubkey: privs[s.WrapSender].PubKey().Bytes(), Signature: []byte{1}}
 		of.Sender, of.SigOK = s.WrapSender, false
 	case "fee":
@@ -523,7 +539,20 @@ func (ru *run) build(s subSpec) *built {
 		outer.Signature = &types.Signature{Ty: sigTy[s.WrapSender], Pubkey: privs[s.WrapSender].PubKey().Bytes(), Signature: []byte{1}}
 		outer.Nonce = s.WrapNonce
 		of.Sender, of.SigOK = s.WrapSender, false
+	case "sigbytes": // the first member's sign type and public key, other signature bytes
+		if hs := ms[0].Signature; hs != nil {
+			sb := append([]byte{}, hs.Signature...)
+			sb[len(sb)/2] ^= 0x21
+			outer.Signature = &types.Signature{Ty: hs.Ty, Pubkey: hs.Pubkey, Signature: sb}
+			of.SigOK = false
+		}
+	case "nosig": // wrapper without Signature (as if cloned before the members were signed)
+		if ms[0].Signature != nil {
+			outer.Signature = nil
+			of.HasSig, of.Sender, of.SigOK = false, noSigID, false
+		}
 	}
+	of.SigID = ru.sigID(outer.Signature)
 	of.ID = ru.id(outer.Hash())
 	of.Fee, of.Nonce, of.Size = outer.Fee, outer.Nonce, int64(types.Size(outer))
 	of.Eth = of.HasSig && (of.Sender == kEth0 || of.Sender == kEth1)
@@ -551,7 +580,7 @@ func (ru *run) serve(topic string, h func(c queue.Client, m *queue.Message)) {
 }
 
 func newRun(spec histSpec) *run {
-	ru := &run{spec: spec, onCh: map[string]bool{}, exBad: map[string]bool{}, idOf: map[string]int{}}
+	ru := &run{spec: spec, onCh: map[string]bool{}, exBad: map[string]bool{}, idOf: map[string]int{}, sigOf: map[string]int{}}
 	ru.cfg = getCfg(spec.Para, spec.MaxTxNum)
 	ru.now = time.Now().Unix() - 100
 	ru.bt = ru.now - spec.BtBack
@@ -709,7 +738,7 @@ func zl(v int64) string {
 func coqTx(f facts) string {
 	return hlib.App("mkTx", hlib.N(uint64(f.ID)), hlib.N(uint64(f.Sender)), hlib.Bool(f.HasSig), hlib.Bool(f.SigOK),
 		hlib.Bool(f.ToValid), hlib.Bool(f.Blocked), hlib.Bool(f.OnChain), zl(f.Expire), hlib.Bool(f.HdrEmp), zl(f.Fee),
-		zl(f.Size), hlib.Bool(f.ChainOK), hlib.Bool(f.Eth), zl(f.Nonce), hlib.Bool(f.ExecOK))
+		zl(f.Size), hlib.Bool(f.ChainOK), hlib.Bool(f.Eth), zl(f.Nonce), hlib.Bool(f.ExecOK), hlib.N(uint64(f.SigID)))
 }
 
 func coqSub(b *built) string {
